@@ -13,7 +13,11 @@ from pathlib import Path
 ROOT = Path(__file__).resolve().parent.parent
 RELATED = {"C01": ["C01", "C02", "C05", "C07"], "C05": ["C05", "C09", "C04", "C10"], "C08": ["C08", "C02", "C07", "C06", "C01"],
            "C09": ["C09", "C05", "C10"], "C11": ["C11", "C10"], "C13": ["C13", "C04", "C14"], "C16": ["C16"],
-           "C19": ["C19", "C10"]}
+           "C19": ["C19", "C10"],
+           # second batch (control flow / correct optimisation / correct copy protocol)
+           "C02": ["C02", "C08", "C05", "C04"], "C03": ["C03", "C02", "C01", "C08", "C07", "C06"], "C04": ["C04", "C05", "C09", "C10", "C13"],
+           "C06": ["C06", "C08", "C05", "C04"], "C07": ["C07", "C01", "C03", "C08"], "C10": ["C10", "C11", "C12", "C19", "C05"],
+           "C12": ["C12", "C10", "C04"], "C14": ["C14", "C13", "C04"], "C15": ["C15"], "C17": ["C17"], "C18": ["C18"], "C20": ["C20"]}
 
 
 def sh(cmd, **kw):
